@@ -14,9 +14,9 @@ CONSTANTS
   MaxCookie = 3
   InqBound = 1
   Kinds = {"CreateObject", "DestroyObject", "CreateService", "AddBusListenerFilter", "RemoveBusListenerFilter", "ClearBusListenerFilters", "StartBusListener", "StopBusListener", "DestroyBusListener"}
-  Faults = {"ends"}
+  Faults = {"ends", "dropped"}
   WrongKinds = {}
-  MsgBudget = 3
+  MsgBudget = 4
   ScriptSel = "lst"
   V0 = 20
   V1 = 20
